@@ -39,12 +39,23 @@ def send_sig(v, bid, variant, path):
 
 
 def opt_guarded(path, idx, load_expr):
-    """GRD-opt: is event idx dominated (on this path) by the decision that this very cell load was Some?"""
+    """GRD-opt: is event idx dominated (on this path) by the decision that this very cell load was Some -
+    or that another load of the same cell was Some with no send in between (nothing can re-enter between the two loads)?"""
+    ck = cell_key(load_expr[1])
     for (i, atom, ev) in guards_before(path, idx):
-        if atom[0] == "discr" and atom[1] == load_expr and atom[2] in (1,):
+        some = (atom[0] == "discr" and atom[2] in (1,)) or (atom[0] == "opt" and atom[2] == "some")
+        if not some or atom[1][0] != "cellload":
+            continue
+        if atom[1] == load_expr:
             return True
-        if atom[0] == "opt" and atom[1] == load_expr and atom[2] == "some":
-            return True
+        if cell_key(atom[1][1]) == ck:
+            # the tested load happened at its own site; no send between that load and the use
+            test_idx = None
+            for j, e in ev_effects(path):
+                if e.kind == "cell" and e.op in ("load", "load_full") and e.site == atom[1][2]:
+                    test_idx = j
+            if test_idx is not None and not [1 for j, e in ev_effects(path) if test_idx < j < idx and e.kind == "send"]:
+                return True
     return False
 
 
@@ -1455,3 +1466,247 @@ def _share_fanout_live_c03(ctx, v, h, var):
         ctx.ob("REL-fanout", "share:UP.DET:REL-fanout:snapshot-without-liveness", live,
                "fan-out re-checks liveness per iteration" if live else
                "fan-out iterates a snapshot of the sink list: a sink that detached during this fan-out still receives the datum", v.loc(h))
+
+
+# ============================================================================= C04
+
+def subscribe_sends(v):
+    return [(e, b) for e, b in v.sends() if e.variant == "Handshake" and v.cls_of(e)[0] in ("UPSRC", "UPSRC_INNER")]
+
+
+def upstream_terminal_sends(v):
+    return [(e, b) for e, b in v.sends() if e.variant in ("Error", "Terminate") and v.cls_of(e)[0] == "UPTB"]
+
+
+@prop("C04", "other",
+      "Structural proof, per operator and arity, of the sink-side discipline toward upstreams (sequential histories, A1-A6): "
+      "(a) DOWN's Error/Terminate arms relay a terminal to every live upstream talkback (REL-bcast, as C03), take's completion "
+      "and the error arms of merge/flatten dispose the remaining upstreams first; (b) the pass-through operators relay the sink's "
+      "Error as Error carrying the same value (REL-1:1 with payload provenance), flatten and share convert to Terminate (tabulated); "
+      "(c) cell hygiene for every talkback cell of an operator with several upstreams over a subscription's life (merge, combine, "
+      "concat, flatten, share): every send through the cell is Some-guarded and the cell is cleared in the arm in which that "
+      "upstream ends or is disposed, before anything else is sent, unless that arm ends the output on every path; (d) PL-sub: the "
+      "complete list of subscribe sites, none in an unguarded loop (merge: range over distinct indices with the over-flag re-read; "
+      "concat: monotone index; combine: one per member; share: list length == 1 after the push); (e) no subscription after the "
+      "output is over (merge flag, concat's `next` only from a member's Terminate); (f) PL-term-up census of upstream terminal "
+      "sites, REL-bcast-live (merge's Pull broadcast re-reads the over-flag per iteration), for_each silent in E/T and pulling "
+      "only in H and D. The hygiene lemma fails at four cells on this tree, each a recorded finding: KF-2 combine, KF-3 concat, "
+      "KF-4 flatten (switch window), KF-8 share.",
+      axioms=["A1", "A2", "A3", "A5", "A6"])
+def C04(ctx, model, tier, models):
+    census_operators(ctx, model)
+    for v in views(model):
+        P = v.P
+        downs = v.by_role("DOWN")
+        # ---- (a)/(b) relays of the sink's terminal
+        for d in downs:
+            if v.family in ("from_iter", "interval"):
+                continue
+            if v.family == "share":
+                _share_detach(ctx, v, d, "Error")
+                _share_detach(ctx, v, d, "Terminate")
+                continue
+            passthrough = v.family != "flatten"
+            lemma_down_relay(ctx, v, d, "Terminate", ("Terminate",), what="terminate-relayed")
+            if passthrough:
+                lemma_down_relay(ctx, v, d, "Error", ("Error",), what="error-relayed-as-error")
+                # payload provenance: the incoming error itself
+                bad = []
+                n = 0
+                for p in v.arm(d, "Error"):
+                    for s in send_sig(v, d, "Error", p):
+                        if s[0] == "UPTB" and s[1] == "Error":
+                            n += 1
+                            if s[2] != "in":
+                                bad.append(s[3].loc)
+                ctx.ob("REL-1:1", v.key(d, "Error", "REL-1:1", "same-error-value"), not bad and n,
+                       "the sink's error value is handed on unchanged" if not bad else "error payload is not the incoming binding at %s" % bad[:2], v.loc(d))
+            else:
+                lemma_down_relay(ctx, v, d, "Error", ("Terminate",), what="error-relayed-as-terminate")
+        # ---- (a) early completion / failure disposes the rest
+        if v.family == "take":
+            for e, b, arms in terminal_sink_sends(v):
+                if arms == ["Data"]:
+                    _take_completion(ctx, v, b, e)
+        if v.family == "merge":
+            for h in v.by_role("UP"):
+                _merge_sibling_disposal(ctx, v, h)
+        if v.family == "flatten":
+            for h in v.by_role("UP", "UP_INNER"):
+                _flatten_cross_disposal(ctx, v, h, "Error")
+        # ---- (c) hygiene
+        if v.family in ("merge", "combine", "concat", "flatten", "share"):
+            _cell_hygiene(ctx, v)
+        # ---- (d) subscribe sites
+        subs = subscribe_sends(v)
+        for e, b in subs:
+            role = v.op.roles.get(b)
+            arms = site_arms(v, b, e.site)
+            in_loop = False
+            for var in (VARIANTS if P.bodies[b].is_handler() else [None]):
+                for p in v.arm(b, var, inline=0):
+                    if len([1 for _, x in ev_effects(p) if x.site == e.site]) > 1:
+                        in_loop = True
+            ok, why = False, ""
+            if v.family == "merge":
+                ok = role == "ROOT" and arms == ["Handshake"] and in_loop
+                # the loop ranges over distinct indices 0..n and indexes the member collection with the loop variable
+                rng = _range_loops(v, b, "Handshake")
+                ok = ok and len(rng) == 1 and all(lo[0] == "const" and lo[3] == 0 and _is_member_count(v, hi) for lo, hi in rng)
+                why = "one subscribe per index of 0..n in ROOT.H"
+            elif v.family == "concat":
+                ok = role == "THUNK" and not in_loop
+                why = "subscribe in thunk `next`, indexed by the monotone member index"
+            elif v.family == "flatten" and v.cls_of(e)[0] == "UPSRC_INNER":
+                ok = role == "UP" and arms == ["Data"] and not in_loop
+                why = "inner source subscribed once per outer datum"
+            elif v.family == "share":
+                ok = role == "ROOT" and arms == ["Handshake"] and not in_loop and _share_len_guard(v, b, e)
+                why = "subscribe guarded by list length == 1 after the push"
+            elif v.cls == "sink":
+                ok = role == "APPLICATION" and not in_loop
+                why = "one subscription per application"
+            else:
+                ok = role == "ROOT" and arms == ["Handshake"] and not in_loop
+                why = "one subscribe in ROOT.H"
+            ctx.ob("PL-sub", v.key(b, None, "PL-sub", "site"), ok, why + ("" if ok else " - VIOLATED (role %s, arms %s, loop %s)" % (role, arms, in_loop)), e.loc)
+        expected = {"combine": len(v.by_role("UP")), "flatten": 2}.get(v.family, 1)
+        if v.family in ("from_iter", "interval"):
+            expected = 0
+        ctx.ob("PL-sub", "%s:PL-sub:count" % v.name, len(subs) == expected, "%d subscribe site(s), expected %d" % (len(subs), expected), v.loc(v.op.id))
+        # ---- (e)
+        if v.family == "merge":
+            _merge_subscribe_loop(ctx, v)
+        if v.family == "concat":
+            for t in v.by_role("THUNK"):
+                if any(e.kind == "send" for e in v.all_effects(t)):
+                    callers = thunk_callers(v, t)
+                    good = bool(callers) and all((v.op.roles.get(cb) == "UP" and cv == "Terminate") or (v.op.roles.get(cb) == "ROOT" and cv == "Handshake") for cb, cv, _ in callers)
+                    ctx.ob("PL-sub", v.key(t, None, "PL-sub", "next-called-only-on-completion"), good,
+                           "`next` is called from %s" % sorted({"%s.%s" % (v.label(cb), VSHORT.get(cv, "-")) for cb, cv, _ in callers}), v.loc(t))
+        # ---- (f) upstream terminal site census, live broadcast, for_each
+        for e, b in upstream_terminal_sends(v):
+            role = v.op.roles.get(b)
+            arms = site_arms(v, b, e.site)
+            ok = False
+            if role == "DOWN" and set(arms) <= {"Error", "Terminate"}:
+                ok = True
+            elif v.family == "take" and role == "UP" and arms == ["Data"]:
+                ok = True
+            elif v.family == "merge" and role == "UP" and arms in (["Error"], ["Handshake"]):
+                ok = True
+            elif v.family == "flatten" and role in ("UP", "UP_INNER") and set(arms) <= {"Data", "Error"}:
+                ok = True
+            ctx.ob("PL-term-up", v.key(b, None, "PL-term-up", "%s-in-%s" % (VSHORT[e.variant], "".join(VSHORT[a] for a in arms))), ok,
+                   "upstream terminal site in %s arms %s" % (v.label(b), arms), e.loc)
+        if v.family == "merge":
+            _merge_pull_live(ctx, v)
+        if v.cls == "sink":
+            for h in v.by_role("UP"):
+                lemma_rel_silent(ctx, v, h, "Error")
+                lemma_rel_silent(ctx, v, h, "Terminate")
+                bad = []
+                for var in VARIANTS:
+                    for p in v.arm(h, var):
+                        for s in send_sig(v, h, var, p):
+                            if not (s[1] == "Pull" and var in ("Handshake", "Data") and s[0] == "UPTB"):
+                                bad.append("%s in %s" % (s[1], VSHORT[var]))
+                ctx.ob("PL-pull", v.key(h, None, "PL-pull", "sink-sends-only-pull"), not bad, "the sink only pulls, in its Handshake and Data arms" if not bad else str(bad), v.loc(h))
+    ctx.floor("PL-sub", 12 + 78)
+    ctx.floor("PL-term-up", 24)
+    ctx.floor("REL-bcast", 2 * (8 + 12))
+
+
+def _share_len_guard(v, b, e):
+    for p in v.arm(b, "Handshake"):
+        for i, x in ev_effects(p):
+            if x.site != e.site:
+                continue
+            rcu = [j for j, y in ev_effects(p) if y.kind == "cell" and y.op == "rcu" and j < i]
+            g = [(j, a) for j, a, _ in guards_before(p, i) if a[0] == "cmp" and a[3] == "==" and a[4] == 1 and a[1] is not None and a[1][0] == "call" and a[1][2].endswith("::len")]
+            if not g or not rcu or not (rcu[0] < g[0][0]):
+                return False
+    return True
+
+
+def _merge_pull_live(ctx, v):
+    """REL-bcast-live (FIX-4): in DOWN.P every Pull of the broadcast follows, in the same iteration, a test of the over-flag."""
+    for d in v.by_role("DOWN"):
+        probs = []
+        n = 0
+        for p in v.arm(d, "Pull"):
+            last_iter = -1
+            for i, ev in enumerate(p.events):
+                if ev[0] == "br" and ev[1][0] == "discr" and ev[1][1][0] == "call" and ev[1][1][2] == "std::iter::Iterator::next":
+                    last_iter = i
+                if ev[0] == "eff" and ev[1].kind == "send":
+                    n += 1
+                    fl = [j for j, a, _ in guards_before(p, i) if j > last_iter and a[0] == "bool" and a[1][0] == "aload" and a[2] is False]
+                    if not fl:
+                        probs.append("a member is pulled without re-reading the over-flag")
+            # once the flag is seen set, no further pull on that path
+            for i, a, ev in guards_before(p, len(p.events)):
+                if a[0] == "bool" and a[1][0] == "aload" and a[2] is True:
+                    if [x for x in p.events[i:] if x[0] == "eff" and x[1].kind == "send"]:
+                        probs.append("broadcast continues after the over-flag was seen")
+        ctx.ob("REL-bcast-live", v.key(d, "Pull", "REL-bcast-live"), not probs and n,
+               "the Pull broadcast re-reads the over-flag before each member" if not probs else probs[0], v.loc(d))
+
+
+def _cell_hygiene(ctx, v):
+    """(c): per talkback cell base: all sends through it are Some-guarded; the member's own T/E arm clears it before anything
+    else is sent unless the arm ends the output; an arm that disposes the cell's content and goes on clears it first."""
+    tb = v.talkback_cells()
+    for k, members in sorted(tb.items(), key=lambda kv: str(kv[0])):
+        cname = v.op.cells[k].name or "cell"
+        probs = []
+        # every send through the cell is guarded by the load being Some
+        for b in v.op.bodies:
+            body = v.P.bodies[b]
+            for var in (VARIANTS if body.is_handler() else [None]):
+                for p in v.arm(b, var, inline=0):
+                    for s in send_sig(v, b, var, p):
+                        ld = recv_load(s[3])
+                        if s[0] == "UPTB" and ld is not None and base_key(ld[1]) == k:
+                            # a pull / terminal through a cell that was stored on this very path just before is fine (greeting arms)
+                            stored_here = any(e.kind == "cell" and e.op == "store" and cell_key(e.cell) == cell_key(ld[1]) and i < s[4] for i, e in ev_effects(p))
+                            if not opt_guarded(p, s[4], ld) and not stored_here:
+                                probs.append("send of %s through %s in %s.%s is not Some-guarded" % (s[1], cname, v.generic_label(b), VSHORT.get(var, "-")))
+        # the member's own end clears the cell (or ends the output)
+        for (h, st) in members:
+            sel = cell_key(st.cell)[1]
+            for var in ("Terminate", "Error"):
+                for p in returning(v.arm(h, var)):
+                    sig = send_sig(v, h, var, p)
+                    ends_output = any(s[0] in ("SINK", "SINKLIST") and (s[1] in ("Error", "Terminate") or s[1] == "INCOMING") for s in sig)
+                    if ends_output and v.family != "share":
+                        continue
+                    cleared = [i for i, e in ev_effects(p) if e.kind == "cell" and e.op == "store" and cell_key(e.cell) == (k, sel) and e.value[0] == "agg" and e.value[2] == "Option::None"]
+                    first_send = min([s[4] for s in sig] + [10 ** 9])
+                    if not cleared or cleared[0] > first_send:
+                        probs.append("%s is not cleared when its upstream ends (%s.%s)" % (cname, v.generic_label(h), VSHORT[var]))
+        crole = "tbcell[%s]" % "+".join(sorted({v.generic_label(h) for h, _ in members}))
+        key = "%s:%s:cell-hygiene" % (v.family, crole)
+        switch_probs = []
+        # an arm that disposes the content and continues (flatten's switch) clears the cell before going on
+        for b in v.op.bodies:
+            body = v.P.bodies[b]
+            if not body.is_handler() or v.op.roles.get(b) == "DOWN":
+                continue
+            for var in VARIANTS:
+                for p in returning(v.arm(b, var)):
+                    sig = send_sig(v, b, var, p)
+                    for s in sig:
+                        ld = recv_load(s[3])
+                        if s[0] == "UPTB" and s[1] in ("Terminate", "Error") and ld is not None and base_key(ld[1]) == k:
+                            ends_output = any(x[0] in ("SINK", "SINKLIST") and x[1] in ("Error", "Terminate") for x in sig)
+                            if ends_output:
+                                continue
+                            later = [x for x in sig if x[4] > s[4]]
+                            cleared = [i for i, e in ev_effects(p) if e.kind == "cell" and e.op == "store" and base_key(e.cell) == k and e.value[0] == "agg" and e.value[2] == "Option::None" and i > s[4]]
+                            if later and (not cleared or cleared[0] > later[0][4]):
+                                switch_probs.append("%s keeps the disposed talkback while %s.%s goes on to %s" % (cname, v.generic_label(b), VSHORT[var], later[0][1]))
+        ctx.ob("cell-hygiene", key, not probs, "cell %s: guarded sends, cleared at its upstream's end" % cname if not probs else "; ".join(sorted(set(probs))[:4]), None)
+        if v.family == "flatten":
+            ctx.ob("cell-hygiene", "%s:%s:cell-hygiene-switch" % (v.family, crole), not switch_probs,
+                   "cell %s is cleared when its content is disposed mid-stream" % cname if not switch_probs else "; ".join(sorted(set(switch_probs))[:3]), None)
